@@ -294,6 +294,63 @@ fn c01_a3_messages() {
 // plus recursive traverse_mut of the Box/enum trees ran out of 24 GB (statement) or of 15-20 min
 // (expression).  Not registered, not claimed; A3 is decided for the harness node type only.
 
+// ---------------------------------------------------------------------------
+// A4i  info(): the range recorded for a node is measured in the NEW stream relative to the enclosing
+//      Reference, the diagnostics the node's parser buffered end up in the node (and only there),
+//      and the caller's buffer and frame are handed back untouched.  Every real node is built
+//      through info(); a reused node keeps its old AstInfo, so this is the "from scratch" side that
+//      reuse is compared with.
+// ---------------------------------------------------------------------------
+fn inner_with_msg<'a>(mut input: TokenStream<'a>) -> IResult<'a, usize> {
+    let t = &input[..];
+    let n = if !is_semic(t.get(0)) {
+        0
+    } else if !is_semic(t.get(1)) {
+        1
+    } else if !is_semic(t.get(2)) {
+        2
+    } else {
+        3
+    };
+    if n == 0 {
+        // nothing parsable: a diagnostic is buffered, like expect() does
+        input.error_buffer.push(SplError(0..0, ParseErrorMessage::MissingTrailingSemic.into()));
+    }
+    Ok((input.advance(n), n))
+}
+
+#[kani::proof]
+#[kani::unwind(3)]
+fn c01_a4_info() {
+    let (_old, new, new_len, ds, de, ins) = sym_edit::<4>(1);
+    let new_toks = build_tokens(&new);
+    let p: usize = kani::any();
+    let rp: usize = kani::any();
+    kani::assume(p <= new_len && rp <= p);
+    let outer_has_msg: bool = kani::any();
+    let mut stream = TokenStream::new_with_change(&new_toks[..new_len], TokenChange::new(ds..de, ins)).advance(p);
+    stream.reference_pos = rp;
+    if outer_has_msg {
+        stream.error_buffer.push(SplError(7..7, ParseErrorMessage::MissingTrailingSemic.into()));
+    }
+    let r = info(inner_with_msg)(stream);
+    match &r {
+        Ok((rest, (n, ai))) => {
+            kani::cover!(*n == 2 && rp > 0 && p > rp, "two tokens consumed inside a Reference that starts later than the stream");
+            kani::cover!(*n == 0 && outer_has_msg, "inner diagnostic while the caller has one pending");
+            assert!(ai.range.start == p - rp && ai.range.end == p - rp + *n, "C01/A4i node range must be measured relative to the enclosing Reference, in the new stream");
+            assert!(ai.errors.len() == (*n == 0) as usize, "C01/A4i the diagnostics buffered by the node's parser belong to the node");
+            assert!(rest.error_buffer.len() == outer_has_msg as usize, "C01/A4i the caller's pending diagnostics are handed back unchanged");
+            if outer_has_msg {
+                assert!(rest.error_buffer[0].0 == (7..7));
+            }
+            assert!(rest.reference_pos == rp && rest.location_offset() == p + *n, "C01/A4i frame and position");
+        }
+        Err(_) => assert!(false, "C01/A4i info() of a total parser cannot fail"),
+    }
+    std::mem::forget(r);
+}
+
 #[kani::proof]
 #[kani::unwind(3)]
 fn c01_a2_twin_must_fail() {
